@@ -11,6 +11,7 @@ import (
 	"os"
 	"sort"
 	"strconv"
+	"strings"
 	"testing"
 	"time"
 )
@@ -62,6 +63,7 @@ type Run struct {
 	vio      map[string]*Violation
 	caseN    int
 	crumb    string
+	resume   string
 }
 
 func (r *Run) Quick() bool    { return r.Tier != "thorough" }
@@ -137,6 +139,20 @@ func (r *Run) Violate(signature, detail string, c any) {
 	v := &Violation{Signature: signature, Detail: detail, Case: c, Count: 1}
 	r.vio[signature] = v
 	r.R.Violations = append(r.R.Violations, v)
+}
+
+// Skip supports restarting a worker after a case killed the process (a panic in a goroutine no
+// recover can catch): with VERIF_RESUME_AFTER set to that case, cases are skipped up to and
+// including it.
+func (r *Run) Skip(c any) bool {
+	if r.resume == "" {
+		return false
+	}
+	b, _ := json.Marshal(c)
+	if string(b) == r.resume {
+		r.resume = ""
+	}
+	return true
 }
 
 // Crumb records the case about to run, so that a crash of the worker can be attributed.
@@ -219,6 +235,16 @@ func Main(t *testing.T, checks map[string]Check) {
 		start: time.Now(), distinct: map[string]bool{}, states: map[string]bool{}, vio: map[string]*Violation{}, crumb: os.Getenv("VERIF_CRUMB")}
 	r.R = &Result{Property: prop, Tier: tier, Shard: r.Shard, NShards: r.NShards, Exhaustive: true,
 		Counters: map[string]int{}, Outcomes: map[string]int{}, Bounds: map[string]any{}}
+	if f := os.Getenv("VERIF_RESUME_AFTER"); f != "" {
+		if b, err := os.ReadFile(f); err == nil {
+			var v any
+			if json.Unmarshal(b, &v) == nil {
+				nb, _ := json.Marshal(v)
+				_ = nb
+			}
+			r.resume = strings.TrimSpace(string(b))
+		}
+	}
 	if d := atoi("VERIF_DEADLINE_S", 0); d > 0 {
 		r.Deadline = r.start.Add(time.Duration(d) * time.Second)
 	}
